@@ -18,11 +18,11 @@ import (
 func init() {
 	simkit.Register(&simkit.Property{
 		ID: "C13", Level: "fault_enumeration", Bubble: true, Run: runC13,
-		Rule: "World A + simfs, fake clock: a generated history of H blocks (H<=12 quick, <=24 thorough; PersistMinDuration and the fake time between blocks chosen per run so that saves happen at chosen commits) is first executed crash-free by a never-stopped reference app and by a live node persisting through the real PersistToDisk onto the simulated disk. Then EVERY crash point of that base run is enumerated: every file-system operation of every save (create, each write with a Chooser-chosen prefix applied, sync, rename; the fate of unsynced data and directory entries is chosen by the Chooser) and every block boundary. After each crash the node is restarted with the real LoadShutterAppFromFile, InitChain is repeated iff it reports height 0, blocks saved+1..H are replayed, and every response and the final canonical state are compared with the reference. Separately chosen runs inject fs.enospc / fs.eio / fs.short_write into a save and require that the previous file stays loadable. Non-trivial = a crash point inside a save (between create and rename); distinct = distinct (history trace, crash point) pairs.",
+		Rule: "World A + simfs, fake clock: a generated history of H blocks (H<=12 quick, <=24 thorough; PersistMinDuration and the fake time between blocks chosen per run so that saves happen at chosen commits) is first executed crash-free by a never-stopped reference app and by a live node persisting through the real PersistToDisk onto the simulated disk. Then EVERY crash point of that base run is enumerated: every file-system operation of every save (create, each write with a Chooser-chosen prefix applied, sync, rename; the fate of unsynced data and directory entries is chosen by the Chooser) and every block boundary. After each crash the node is restarted with the real LoadShutterAppFromFile, InitChain is repeated iff it reports height 0, blocks saved+1..H are replayed, and every response and the final canonical state are compared with the reference; the restarted node keeps saving while it replays (over whatever the crash left on disk), is stopped again (cleanly or by a second crash, tape choice) and a third incarnation must load what it wrote and reach the same state. Genesis files include the legacy forkHeights.checkInUpdate field. Separately chosen runs inject fs.enospc / fs.eio / fs.short_write into a save and require that the previous file stays loadable. Non-trivial = a crash point inside a save (between create and rename); distinct = distinct (history trace, crash point) pairs.",
 		Assumptions: []string{"Tendermint replays exactly the blocks after Info().LastBlockHeight and calls InitChain iff that height is 0", "disk model: data is durable after File.Sync; directory operations become durable in order, a crash persists a prefix of them; unsynced file tails survive partially"},
 		Real:        []string{"app.ShutterApp incl. PersistToDisk, maybePersistToDisk, LoadShutterAppFromFile, Info, Commit", "encoding/gob"},
-		Stub:        []string{"Tendermint (simtm)", "the disk (simfs via overlay redirect of os.Create/os.Open/os.Rename in package app)"},
-		QuickRuns:   160, ThoroughRuns: 6000, QuickMinimize: 60, ThoroughMinimize: 300,
+		Stub:        []string{"Tendermint (simtm)", "the disk (simfs via overlay redirect of os.Create/Open/OpenFile/Rename/Remove/ReadFile/WriteFile in package app)"},
+		QuickRuns:   480, ThoroughRuns: 6000, QuickMinimize: 60, ThoroughMinimize: 300,
 	})
 }
 
